@@ -80,6 +80,9 @@ class ParCheck:
         keys = set(seq_key(r) for r in seq_results)
         if seq_key(sched_res) not in keys:
             return "concurrent run equals no sequential run of the same calls (per-thread outcomes, counters, ordered index, recorded errors, verdict)"
+        # the reference runs are produced by the same build: a rejected call must also show in the verdict (std builds)
+        if any(o.startswith('err:') for t in sched_res['outs'].split('|') for o in t.split(',')) and sched_res['verdict'] == 'ok':
+            return "a call was rejected with a mock-induced error, yet the verification after joining the threads passed"
         return None
 
     def run(self, tier, seed, replay=None):
@@ -87,12 +90,18 @@ class ParCheck:
         rep.assumptions = ["each instrumented operation (AtomicUsize method, lock acquisition, OnceCell::try_insert) is one sequentially consistent atomic step; weak-memory reorderings are outside the model",
                            "the controlled scheduler preempts only at cfg(unimock_verif) yield points, which sit immediately before every such operation"]
         engine.lean_obligations(self.prop, self.theorems, rep, thorough=(tier == 'thorough'))
+        self.explore_into(rep, tier, seed, replay)
+        self.extra(rep, tier, seed)
+        return rep.finish()
+
+    def explore_into(self, rep, tier, seed, replay=None, merge=False):
+        """all schedules of this check's scenarios on the real crate, replayed on the interleaving model and judged; added to `rep`"""
         ok, log = engine.build_harness(['sched'])
         if not ok:
             path = engine.write_replay(self.prop, 'build', log + '\n', ["the scheduler harness no longer builds against /repo (hooks or API changed)"])
             rep.violation(path, "scheduler harness does not build against /repo", no_input=True)
             rep.coverage.update({'evaluations': 0, 'distinct_nontrivial': 0, 'rule': self.rule(), 'samples': []})
-            return rep.finish()
+            return
         cap, nrandom = self.caps(tier)
         if replay:
             text = ''.join(l for l in open(replay) if not l.startswith('#') and not l.startswith('schedule '))
@@ -106,7 +115,7 @@ class ParCheck:
             path = engine.write_replay(self.prop, 'toolerror', text[:20000], [f"sched run failed: {e!r}"])
             rep.violation(path, f"scheduler run crashed: {e!r}"[:300], no_input=True)
             rep.coverage.update({'evaluations': 0, 'distinct_nontrivial': 0, 'rule': self.rule(), 'samples': []})
-            return rep.finish()
+            return
         texts = dict(scen)
         # model input: scenario + schedules explored by the real run
         model_in = []
@@ -168,6 +177,11 @@ class ParCheck:
         stress_info = None
         if not replay:
             stress_info = self.stress(tier, seed, rep)
+        if merge:
+            rep.coverage['interleavings'] = {'schedules': total, 'with_context_switch': switched, 'scenarios': len(order), 'exhaustive': exhaustive_all}
+            rep.coverage['evaluations'] = rep.coverage.get('evaluations', 0) + total
+            rep.coverage['distinct_nontrivial'] = rep.coverage.get('distinct_nontrivial', 0) + switched
+            return
         rep.coverage.update({
             'evaluations': total, 'distinct_nontrivial': switched,
             'rule': self.rule(), 'samples': samples, 'traces_validated_against_impl': total,
@@ -175,8 +189,6 @@ class ParCheck:
             'scenarios': len(order), 'distinct_tag_sequences': len(tagseqs), 'stress': stress_info,
             'explanation': "theorems about arbitrary interleavings of the runtime's atomic actions checked by the Lean kernel; every schedule explored on the real crate is replayed on the model and judged by a model-free linearizability oracle",
         })
-        self.extra(rep, tier, seed)
-        return rep.finish()
 
     def extra(self, rep, tier, seed):
         pass
